@@ -44,6 +44,9 @@ class Harness(cm.BaseB):
                 yield {"L": L, "kind": kind, "n": n}
             for bad in (-1, -5, 1.0, "2", {"$none": 1}, 2.5):
                 yield {"L": L, "kind": kind, "n": bad}
+            if L in (1, 2, 3, 8, 26) and kind in ("list", "array1d"):
+                for n in (1000, 1536, 4097, 20000, 100001):
+                    yield {"L": L, "kind": kind, "n": n}
 
     def one(self, case):
         L, kind, n = case["L"], case["kind"], case["n"]
